@@ -23,7 +23,7 @@ KEY_D17 = "fork-reap-race-timeout0"
 # running one case on the real arbiter
 # ---------------------------------------------------------------------------------------------------
 
-def run_case(cfg, script, tail_loops=None):
+def run_case(cfg, script, tail_loops=None, strict_sigchld=False):
     w = L.World(workers=cfg["workers"], timeout=cfg["timeout"], graceful=cfg["graceful_timeout"], rand=cfg.get("rand", 0.0))
     if tail_loops is None:
         tail_loops = cfg["timeout"] + 10
@@ -59,7 +59,9 @@ def run_case(cfg, script, tail_loops=None):
             if n > num:
                 world.oracle_notes.append("spawn_workers registered worker number %d although the target is %d" % (n, num))
     w.probe = probe
-    w.run(script, policy=L.make_settle(tail_loops))
+    # schedules with a child that is not a worker are judged with a kernel that raises SIGCHLD on deaths only
+    strict_sigchld = strict_sigchld or any(l[0] == "Sp" for l in script)
+    w.run(script, policy=L.make_settle(tail_loops, strict_sigchld))
     return w
 
 
@@ -185,6 +187,15 @@ def fixed_cases():
         for i in (3, 6, 10, 16):
             s = [("M",)] * 14 + [("S", SIG[sg])] + [("M",)] * i + [("LTk", 0)] + [("M",)] * 6 + [("LTk", 0)] + [("M",)] * 12
             cases.append((cfg_of(nw, 2), s, "lost-term"))
+    # a child of the master that is not a worker dies in the same SIGCHLD batch as workers (SIGCHLDs coalesce: one handler run
+    # has to reap them all).  Oracle only - Model/Arbiter.v knows no children but workers and masters.
+    for nw in (2, 3):
+        for i in (0, 3, 8):
+            for status in (0, 9):
+                s = [("M",)] * (14 + i) + [("Sp", status), ("Xk", 0, 9), ("Xk", 1, 15), ("C",)] + [("M",)] * 12
+                cases.append((cfg_of(nw, 2), s, "stray-child"))
+                s = [("M",)] * (14 + i) + [("Xk", 0, 9), ("Sp", status), ("Xk", 0, 15), ("C",)] + [("M",)] * 12
+                cases.append((cfg_of(nw, 2), s, "stray-child"))
     # the queue bound: more signals than the queue holds
     cases.append((cfg_of(1, 2), [("M",)] * 8 + [("S", SIG["TTIN"])] * 8 + [("M",)] * 40, "queue-bound"))
     cases.append((cfg_of(3, 2), [("M",)] * 14 + [("S", SIG["TTOU"])] * 7 + [("M",)] * 40, "queue-bound"))
@@ -263,7 +274,7 @@ def run(ctx):
     corr = []
     failures = []
     for cfg, script, tag in cases:
-        w = run_case(cfg, script)
+        w = run_case(cfg, script, strict_sigchld=(tag == "stray-child"))
         env_events = sum(1 for l in script if l[0] != "M")
         ctx.count_case((tuple(sorted(cfg.items())), tuple(script)), nontrivial=env_events >= 1 and len(w.forks) >= 1)
         ctx.hist("kind", tag)
@@ -272,7 +283,7 @@ def run(ctx):
         for l in script:
             if l[0] != "M":
                 ctx.hist("label", l[0] if l[0] != "S" else "S%d" % l[1])
-        if tag != "lost-term":
+        if tag not in ("lost-term", "stray-child"):
             corr.append((model_case(cfg, w), L.flat(w.trace), (cfg, script)))
         fs = judge(cfg, w)
         if fs:
